@@ -1,41 +1,51 @@
 import VncModel.Gen.C05
 /-
 Model of the RFB handshake and VNC authentication of libvncserver for a whole *process*: several
-screens, any number of connections, and the process-global list of security handlers of auth.c.
+screens, any number of connections, the process-global list of registered security handlers of
+auth.c, application-registered handlers and the TightVNC file-transfer extension's security type 16.
 
 C ↔ model (src/libvncserver unless noted)
   rfbNewTCPOrUDPClient (version string, state)            ↔ `Ev.connect`
   bytes arriving on the socket                             ↔ `Ev.recv` (appended to `inbuf`)
   one call of rfbProcessClientMessage                      ↔ `Ev.proc`  → `procConn`
+  rfbRegisterSecurityHandler / rfbUnregisterSecurityHandler (application) ↔ `Ev.register` / `Ev.unregister`
   rfbProcessClientProtocolVersion                          ↔ `processVersion`
   rfbAuthNewClient / rfbSendSecurityType / …TypeList       ↔ `authNewClient`, `sendSecurityType`, `sendSecurityTypeList`
   rfbProcessClientSecurityType                             ↔ `processSecurityType`
   rfbVncAuthSendChallenge / rfbVncAuthNone                 ↔ `sendChallenge`, `vncAuthNone`
   rfbAuthProcessClientMessage                              ↔ `processAuth`
   rfbCheckPasswordByList / rfbDefaultPasswordCheck (main.c) ↔ `checkList`, `checkFile`, `passwordCheck`
-  rfbProcessClientInitMessage (up to `cl->state = RFB_NORMAL`) ↔ `processClientInit`
-  static securityHandlers (auth.c:40)                      ↔ `Proc.handlers` (types, head first)
+  rfbProcessClientInitMessage (up to `cl->state = RFB_NORMAL`, incl. the extension's init hook)
+                                                           ↔ `processClientInit`
+  tightvnc-filetransfer/rfbtightserver.c: rfbHandleSecTypeTight → rfbSendTunnelingCaps →
+    rfbSendAuthCaps → rfbProcessClientAuthType → rfbVncAuthSendChallenge (its own copy) →
+    rfbAuthProcessClientMessage, all inside ONE call of rfbProcessClientMessage, reading
+    synchronously from the socket                          ↔ `tightHandler`
+  static securityHandlers (auth.c:40)                      ↔ `Proc.handlers` (registered handlers, head first)
   rfbRandomBytes                                           ↔ `Proc.rand` (environment: `Ev.setRand`)
   rfbWriteExact failing because the peer is gone           ↔ the `peerClosed` test before every `wr`
-  rfbReadExact running into the timeout / EOF              ↔ `procConn` with a short `inbuf`: close
+  rfbReadExact running into the timeout / EOF              ↔ a short `inbuf`: close
 
 External functions are parameters (`Env`): `enc` = rfbEncryptBytes, `decFile` =
-rfbDecryptPasswdFromFile on the file's content, `parseVer` = `sscanf(pv, "RFB %03d.%03d\n", …) == 2`.
-The driver instantiates them with `VncModel.Des` and `parseVersion` below; the theorems hold for
-every instantiation.
+rfbDecryptPasswdFromFile on the file's content, `parseVer` = `sscanf(pv, "RFB %03d.%03d\n", …) == 2`,
+`app t` = the handler function of an application-registered security handler of type `t`
+(application code: the theorems assume of it only what `AppOk` in Lemmas.lean says).
 
-`fixed = true` is rfbProcessClientSecurityType after fixes/C05-global-security-handlers.diff (the
-built-in type is decided from the client's own screen); `fixed = false` is the code before the fix
-(lookup in the process-global list), kept to document the defect (`auth_bypass_witness_unfixed`).
+`fixed = true` is the code after fixes/C05-global-security-handlers.diff (454e4a4: the built-in type
+is decided from the client's own screen), fixes/C05-security-type-list-no-global-swap.diff (the
+built-in handlers are no longer kept in the shared list: a connection never changes it) and
+fixes/C05-unregister-single-handler.diff (unregister removes the given node only).  `fixed = false`
+is the ORIGINAL code (lookup in a process-global list in which every connection swaps the built-in
+handlers; `Proc.legacy`), kept without registered handlers to document the defect
+(`auth_bypass_witness_unfixed`).
 
-Not modelled (stated in docs/C05.md): security handlers registered by applications / the
-tightvnc-filetransfer extension (none is registered by default; then the global list only ever
-holds the two built-in handlers, whose `next` pointers stay NULL, so a list of types is exact);
-the shared-flag policy after ClientInit (C14; the harness uses alwaysShared); messages in state
-NORMAL; `rfbDefaultPasswordCheck` overwriting the dead `cl->authChallenge` buffer; WebSockets/TLS.
+Not modelled (docs/C05.md): the shared-flag policy after ClientInit (C14; the harness uses
+alwaysShared); messages in state NORMAL; `rfbDefaultPasswordCheck` overwriting the dead
+`cl->authChallenge` buffer; WebSockets/TLS; the content of the TightVNC interaction capability lists
+(only that they are written after ServerInit).
 
-Constants (message sizes, security-type numbers, reason strings, MAX_SECURITY_TYPES) come from the
-T0 probe `VncModel.Gen.C05`, regenerated from /repo on every run.
+Constants (message sizes, security-type numbers, reason strings, MAX_SECURITY_TYPES, the TightVNC
+capability record) come from the T0 probe `VncModel.Gen.C05`, regenerated from /repo on every run.
 -/
 namespace VncModel.Auth
 open VncModel.Gen
@@ -53,6 +63,10 @@ inductive Msg where
   | secResult (ok : Bool)            -- rfbVncAuthOK = 0 / rfbVncAuthFailed = 1
   | reason (s : List UInt8)          -- rfbClientSendString: 32-bit length + text
   | serverInit
+  | tightTunnelCaps                  -- rfbSendTunnelingCaps: nTunnelTypes = 0
+  | tightAuthCaps (n : Nat)          -- rfbSendAuthCaps: nAuthTypes (+ the VNC-auth capability if 1)
+  | tightInteractionCaps             -- rfbSendInteractionCaps after ServerInit
+  | appMarker                        -- what the harness' application handler writes
   deriving DecidableEq, Repr
 
 inductive PwCfg where
@@ -66,10 +80,15 @@ structure Screen where
   serverInit : List UInt8 := []      -- wire bytes of ServerInit (driver only)
   deriving DecidableEq, Repr
 
-structure Env where
-  enc : List UInt8 → List UInt8 → List UInt8
-  decFile : List UInt8 → Option (List UInt8)
-  parseVer : List UInt8 → Option (Int × Int)
+/-- a registered security handler -/
+inductive Handler where
+  | tight                 -- tightVncSecurityHandler (type 16)
+  | app (t : Nat)         -- registered by the application, type `t`
+  deriving DecidableEq, Repr
+
+def Handler.type : Handler → Nat
+  | .tight => C05.rfbSecTypeTight
+  | .app t => t
 
 structure Conn where
   id : Nat
@@ -83,11 +102,19 @@ structure Conn where
   viewOnly : Bool := false
   inbuf : List UInt8 := []
   sent : List Msg := []              -- newest first
-  resp : Option (List UInt8) := none -- the 16 bytes read in state AUTHENTICATION
+  resp : Option (List UInt8) := none -- the 16 bytes rfbAuthProcessClientMessage read
+  tight : Bool := false              -- TightVNC extension enabled for this client (rfbEnableExtension)
   deriving DecidableEq, Repr
 
+structure Env where
+  enc : List UInt8 → List UInt8 → List UInt8
+  decFile : List UInt8 → Option (List UInt8)
+  parseVer : List UInt8 → Option (Int × Int)
+  app : Nat → Conn → Conn
+
 structure Proc where
-  handlers : List Nat := []
+  handlers : List Handler := []      -- registered handlers (fixed code: never touched by connections)
+  legacy : List Nat := []            -- ORIGINAL code only: the global list with the built-in handlers
   rand : List UInt8 := []
   conns : List Conn := []
   deriving DecidableEq, Repr
@@ -109,6 +136,10 @@ def wr (c : Conn) (m : Msg) : Conn := { c with sent := m :: c.sent }
 /-- rfbClientSendString: write (failure only logged), then rfbCloseClient -/
 def sendString (c : Conn) (s : List UInt8) : Conn :=
   if c.peerClosed then close c else close (wr c (.reason s))
+
+/-- the application handler of the harness: writes a marker and closes the connection -/
+def appClose (c : Conn) : Conn :=
+  if c.peerClosed then close c else close (wr c .appMarker)
 
 /-! ## password checks (main.c) -/
 
@@ -137,7 +168,8 @@ def passwordCheck (env : Env) (pw : PwCfg) (chal resp : List UInt8) : Option Boo
 
 /-! ## auth.c -/
 
-/-- the condition of rfbAuthNewClient: `!cl->screen->authPasswdData || cl->reverseConnection` -/
+/-- the condition of rfbAuthNewClient / rfbBuiltinSecurityHandler:
+`!cl->screen->authPasswdData || cl->reverseConnection` -/
 def builtinType (scr : Screen) (c : Conn) : Nat :=
   if scr.pw = .none || c.reverse then secNone else secVncAuth
 
@@ -147,10 +179,13 @@ def sendChallenge (rand : List UInt8) (c : Conn) : Conn :=
   if c.peerClosed then close c else { wr c (.challenge rand) with st := .auth }
 
 /-- rfbProcessClientInitMessage after the ClientInit byte has been read (or in
-RFB_INITIALISATION_SHARED): ServerInit, RFB_NORMAL -/
+RFB_INITIALISATION_SHARED): ServerInit, the init hook of the TightVNC extension if it is enabled
+(rfbSendInteractionCaps), RFB_NORMAL -/
 def processClientInit (c : Conn) : Conn :=
   let c := { c with st := .init }
-  if c.peerClosed then close c else { wr c .serverInit with st := .normal }
+  if c.peerClosed then close c
+  else if c.tight then { wr (wr c .serverInit) .tightInteractionCaps with st := .normal }
+  else { wr c .serverInit with st := .normal }
 
 /-- rfbVncAuthNone after the optional SecurityResult -/
 def vncAuthNoneTail (c : Conn) : Conn :=
@@ -171,47 +206,46 @@ def sendSecurityType (rand : List UInt8) (c : Conn) (t : Nat) : Conn :=
 def register (t : Nat) (hs : List Nat) : List Nat := if t ∈ hs then hs else t :: hs
 def unregister (t : Nat) (hs : List Nat) : List Nat := hs.erase t
 
-/-- the switch at the top of rfbSendSecurityTypeList: the built-in handlers are swapped in the
-process-global list -/
+/-- ORIGINAL code: the switch at the top of rfbSendSecurityTypeList swaps the built-in handlers in
+the process-global list -/
 def newHandlers (hs : List Nat) (t : Nat) : List Nat :=
   if t = secNone then register secNone (unregister secVncAuth hs)
   else register secVncAuth (unregister secNone hs)
 
-/-- the types written to the client (`size < MAX_SECURITY_TYPES`) -/
-def offered (hs : List Nat) (t : Nat) : List Nat := (newHandlers hs t).take (C05.MAX_SECURITY_TYPES - 1)
+/-- the types written to the client (`size < MAX_SECURITY_TYPES`).  fixed: the built-in type of
+this client first, then the registered handlers; original: the global list after the swap -/
+def offered (fixed : Bool) (hs : List Handler) (legacy : List Nat) (t : Nat) : List Nat :=
+  if fixed then (t :: hs.map Handler.type).take (C05.MAX_SECURITY_TYPES - 1)
+  else (newHandlers legacy t).take (C05.MAX_SECURITY_TYPES - 1)
 
-/-- rfbSendSecurityTypeList: swaps the built-in handlers in the *global* list, sends the list -/
-def sendSecurityTypeList (hs : List Nat) (c : Conn) (t : Nat) : Conn × List Nat :=
-  if c.peerClosed then (close c, newHandlers hs t)
-  else if offered hs t = [] then (sendString (wr c (.secTypes (offered hs t))) reasonNoAuthMode, newHandlers hs t)
-  else ({ wr c (.secTypes (offered hs t)) with st := .sec }, newHandlers hs t)
+/-- rfbSendSecurityTypeList: sends the list; returns the new legacy list (changed by the original
+code only) -/
+def sendSecurityTypeList (fixed : Bool) (hs : List Handler) (legacy : List Nat) (c : Conn) (t : Nat) :
+    Conn × List Nat :=
+  let legacy' := if fixed then legacy else newHandlers legacy t
+  if c.peerClosed then (close c, legacy')
+  else if offered fixed hs legacy t = [] then
+    (sendString (wr c (.secTypes (offered fixed hs legacy t))) reasonNoAuthMode, legacy')
+  else ({ wr c (.secTypes (offered fixed hs legacy t)) with st := .sec }, legacy')
 
 /-- rfbAuthNewClient -/
-def authNewClient (scr : Screen) (hs : List Nat) (rand : List UInt8) (c : Conn) : Conn × List Nat :=
+def authNewClient (fixed : Bool) (scr : Screen) (hs : List Handler) (legacy : List Nat)
+    (rand : List UInt8) (c : Conn) : Conn × List Nat :=
   let t := builtinType scr c
-  if c.minor < 7 then (sendSecurityType rand c t, hs) else sendSecurityTypeList hs c t
+  if c.minor < 7 then (sendSecurityType rand c t, legacy) else sendSecurityTypeList fixed hs legacy c t
 
 /-- rfbProcessClientProtocolVersion on the 12 bytes read -/
-def processVersion (env : Env) (scr : Screen) (hs : List Nat) (rand : List UInt8) (c : Conn)
-    (pv : List UInt8) : Conn × List Nat :=
+def processVersion (fixed : Bool) (env : Env) (scr : Screen) (hs : List Handler) (legacy : List Nat)
+    (rand : List UInt8) (c : Conn) (pv : List UInt8) : Conn × List Nat :=
   match env.parseVer pv with
-  | none => (close c, hs)
+  | none => (close c, legacy)
   | some (major, minor) =>
-    if major ≠ 3 then (close c, hs) else authNewClient scr hs rand { c with minor := minor }
+    if major ≠ 3 then (close c, legacy)
+    else authNewClient fixed scr hs legacy rand { c with minor := minor }
 
 /-- the handler of a built-in security type -/
 def runHandler (rand : List UInt8) (c : Conn) (t : Nat) : Conn :=
   if t = secNone then vncAuthNone c else sendChallenge rand c
-
-/-- rfbProcessClientSecurityType on the byte read.
-fixed: only the built-in type that applies to this client (other handlers in the list would be
-application-registered ones: none in this model).  unfixed: whatever the global list holds now. -/
-def processSecurityType (fixed : Bool) (scr : Screen) (hs : List Nat) (rand : List UInt8) (c : Conn)
-    (t : UInt8) : Conn :=
-  if fixed then
-    if t.toNat = builtinType scr c then runHandler rand c t.toNat else close c
-  else
-    if t.toNat ∈ hs then runHandler rand c t.toNat else close c
 
 /-- rfbAuthProcessClientMessage, check failed: rfbVncAuthFailed (a failed write is only logged), then
 the reason string for 3.8 clients (rfbClientSendString closes) or rfbCloseClient.  With the peer
@@ -232,6 +266,61 @@ def processAuth (env : Env) (scr : Screen) (c : Conn) (resp : List UInt8) : Conn
   | none => authFail { c with resp := some resp }
   | some vo => authOk { c with resp := some resp } vo
 
+/-! ## tightvnc-filetransfer/rfbtightserver.c: security type 16 -/
+
+/-- big-endian 32-bit value of the first four bytes -/
+def be32val (l : List UInt8) : Nat :=
+  (l.take 4).foldl (fun a b => 256 * a + b.toNat) 0
+
+/-- rfbSendAuthCaps on a connection that needs no authentication: no auth types, SecurityResult OK
+for 3.8+ (SECTYPE_TIGHT_FOR_RFB_3_8: `minor > 7`, also 889), RFB_INITIALISATION -/
+def tightNoAuth (c : Conn) : Conn :=
+  let c1 := wr c (.tightAuthCaps 0)
+  { (if c.minor > 7 then wr c1 (.secResult true) else c1) with st := .init }
+
+/-- rfbSendAuthCaps on a connection that needs authentication: one auth type (VNC); then, in the
+same call, rfbProcessClientAuthType reads the client's choice (4 bytes), the extension's own
+rfbVncAuthSendChallenge writes the challenge and calls rfbAuthProcessClientMessage, which reads the
+16-byte response.  `cl->state` stays RFB_SECURITY_TYPE until the check has passed. -/
+def tightAuth (env : Env) (scr : Screen) (rand : List UInt8) (c : Conn) : Conn :=
+  let c1 := wr c (.tightAuthCaps 1)
+  if c1.inbuf.length < C05.sz_rfbAuthenticationCapsMsg then close { c1 with inbuf := [] }   -- read times out
+  else if be32val c1.inbuf ≠ C05.rfbAuthVNC then close { c1 with inbuf := c1.inbuf.drop 4 }   -- not in authCaps
+  else
+    let c2 := wr { c1 with inbuf := c1.inbuf.drop 4, challenge := rand } (.challenge rand)
+    if c2.inbuf.length < C05.CHALLENGESIZE then close { c2 with inbuf := [] }
+    else processAuth env scr { c2 with inbuf := c2.inbuf.drop C05.CHALLENGESIZE }
+           (c2.inbuf.take C05.CHALLENGESIZE)
+
+/-- rfbHandleSecTypeTight: enable the extension for this client, tunnelling caps (none), auth caps -/
+def tightHandler (env : Env) (scr : Screen) (rand : List UInt8) (c : Conn) : Conn :=
+  let c := { c with tight := true }
+  if c.peerClosed then close c
+  else if scr.pw ≠ .none ∧ c.reverse = false then tightAuth env scr rand (wr c .tightTunnelCaps)
+  else tightNoAuth (wr c .tightTunnelCaps)
+
+/-- an application handler works on the client record; identity, screen, direction and the peer's
+end of the socket are not its to change -/
+def appRun (env : Env) (t : Nat) (c : Conn) : Conn :=
+  { env.app t c with id := c.id, screen := c.screen, reverse := c.reverse, peerClosed := c.peerClosed }
+
+def runRegistered (env : Env) (scr : Screen) (rand : List UInt8) (c : Conn) : Handler → Conn
+  | .tight => tightHandler env scr rand c
+  | .app t => appRun env t c
+
+/-- rfbProcessClientSecurityType on the byte read.
+fixed: the built-in type that applies to this client, else the first registered handler of that
+type.  original: whatever the global list of built-in handlers holds now. -/
+def processSecurityType (fixed : Bool) (env : Env) (scr : Screen) (hs : List Handler) (legacy : List Nat)
+    (rand : List UInt8) (c : Conn) (t : UInt8) : Conn :=
+  if fixed then
+    if t.toNat = builtinType scr c then runHandler rand c t.toNat
+    else match hs.find? (fun h => h.type == t.toNat) with
+      | some h => runRegistered env scr rand c h
+      | none => close c
+  else
+    if t.toNat ∈ legacy then runHandler rand c t.toNat else close c
+
 /-! ## rfbProcessClientMessage -/
 
 /-- bytes the handler of a state reads first -/
@@ -240,22 +329,22 @@ def need : St → Nat
   | .init => C05.sz_rfbClientInitMsg | .initShared => 0 | .normal => 0
 
 /-- the switch of rfbProcessClientMessage, on the message `msg` already read -/
-def dispatch (fixed : Bool) (env : Env) (scr : Screen) (hs : List Nat) (rand : List UInt8) :
-    St → Conn → List UInt8 → Conn × List Nat
-  | .ver, c, msg => processVersion env scr hs rand c msg
-  | .sec, c, msg => (processSecurityType fixed scr hs rand c (msg.headD 0), hs)
-  | .auth, c, msg => (processAuth env scr c msg, hs)
-  | .init, c, _ => (processClientInit c, hs)
-  | .initShared, c, _ => (processClientInit c, hs)
-  | .normal, c, _ => (c, hs)
+def dispatch (fixed : Bool) (env : Env) (scr : Screen) (hs : List Handler) (legacy : List Nat)
+    (rand : List UInt8) : St → Conn → List UInt8 → Conn × List Nat
+  | .ver, c, msg => processVersion fixed env scr hs legacy rand c msg
+  | .sec, c, msg => (processSecurityType fixed env scr hs legacy rand c (msg.headD 0), legacy)
+  | .auth, c, msg => (processAuth env scr c msg, legacy)
+  | .init, c, _ => (processClientInit c, legacy)
+  | .initShared, c, _ => (processClientInit c, legacy)
+  | .normal, c, _ => (c, legacy)
 
-/-- one call of rfbProcessClientMessage for connection `c` (returns the new global handler list) -/
-def procConn (fixed : Bool) (env : Env) (scr : Screen) (hs : List Nat) (rand : List UInt8) (c : Conn) :
-    Conn × List Nat :=
-  if !c.isOpen then (c, hs)
-  else if c.st = .normal then (c, hs)            -- rfbProcessClientNormalMessage: outside this model
-  else if c.inbuf.length < need c.st then (close { c with inbuf := [] }, hs)   -- timeout / EOF
-  else dispatch fixed env scr hs rand c.st { c with inbuf := c.inbuf.drop (need c.st) }
+/-- one call of rfbProcessClientMessage for connection `c` (returns the new legacy list) -/
+def procConn (fixed : Bool) (env : Env) (scr : Screen) (hs : List Handler) (legacy : List Nat)
+    (rand : List UInt8) (c : Conn) : Conn × List Nat :=
+  if !c.isOpen then (c, legacy)
+  else if c.st = .normal then (c, legacy)        -- rfbProcessClientNormalMessage: outside this model
+  else if c.inbuf.length < need c.st then (close { c with inbuf := [] }, legacy)   -- timeout / EOF
+  else dispatch fixed env scr hs legacy rand c.st { c with inbuf := c.inbuf.drop (need c.st) }
          (c.inbuf.take (need c.st))
 
 /-! ## the process -/
@@ -266,6 +355,8 @@ inductive Ev where
   | proc (cid : Nat)
   | peerClose (cid : Nat)
   | setRand (r : List UInt8)
+  | register (h : Handler)           -- the application calls rfbRegisterSecurityHandler
+  | unregister (h : Handler)         -- … rfbUnregisterSecurityHandler
   deriving DecidableEq, Repr
 
 def getConn (s : Proc) (cid : Nat) : Option Conn := s.conns.find? (fun c => c.id == cid)
@@ -283,6 +374,8 @@ def step (fixed : Bool) (env : Env) (screens : List Screen) (s : Proc) : Ev → 
   | .peerClose cid =>
     { s with conns := s.conns.map (fun c => if c.id == cid then { c with peerClosed := true } else c) }
   | .setRand r => { s with rand := r }
+  | .register h => { s with handlers := if h ∈ s.handlers then s.handlers else h :: s.handlers }
+  | .unregister h => { s with handlers := s.handlers.erase h }
   | .proc cid =>
     match getConn s cid with
     | none => s
@@ -290,8 +383,8 @@ def step (fixed : Bool) (env : Env) (screens : List Screen) (s : Proc) : Ev → 
       match screens[c.screen]? with
       | none => s
       | some scr =>
-        let r := procConn fixed env scr s.handlers s.rand c
-        { s with handlers := r.2,
+        let r := procConn fixed env scr s.handlers s.legacy s.rand c
+        { s with legacy := r.2,
                  conns := s.conns.map (fun d => if d.id == cid then r.1 else d) }
 
 def run (fixed : Bool) (env : Env) (screens : List Screen) (s : Proc) (evs : List Ev) : Proc :=
